@@ -4,6 +4,6 @@
 cd "$(dirname "$0")" || exit 1
 export GOFLAGS=-mod=mod GOPROXY=off GOSUMDB=off GOTOOLCHAIN=local CGO_ENABLED=0
 mkdir -p .bin evidence replays
-./check.sh build || exit 1
+./check.sh build-all || exit 1
 if [ -x ./inst/prebuild.sh ]; then ./inst/prebuild.sh || exit 1; fi
 echo setup ok
